@@ -666,6 +666,77 @@ func main() {
 		def("mux_run_closes_dropped", "bool", coqBool(closes), "mux_broker.go Run: the default branch of the park select closes the stream")
 	}
 
+	// ---- TLS wiring under AutoMTLS (C12)
+	{
+		tlsLit := func(fn ast.Node, key, val string) bool { // a tls.Config composite literal with key: val
+			found := false
+			if fn == nil {
+				return false
+			}
+			ast.Inspect(fn, func(n ast.Node) bool {
+				cl, ok := n.(*ast.CompositeLit)
+				if !ok || cl.Type == nil || exprString(cl.Type) != "tls.Config" {
+					return true
+				}
+				for _, e := range cl.Elts {
+					if kv, ok := e.(*ast.KeyValueExpr); ok && exprString(kv.Key) == key && (val == "" || exprString(kv.Value) == val) {
+						found = true
+					}
+				}
+				return true
+			})
+			return found
+		}
+		assigns := func(fn ast.Node, suffix string) bool { // an assignment whose left side ends in .suffix
+			found := false
+			if fn == nil {
+				return false
+			}
+			ast.Inspect(fn, func(n ast.Node) bool {
+				if as, ok := n.(*ast.AssignStmt); ok {
+					for _, l := range as.Lhs {
+						if strings.HasSuffix(exprString(l), "."+suffix) {
+							found = true
+						}
+					}
+				}
+				return true
+			})
+			return found
+		}
+		// the host config must be installed inside the `if c.config.AutoMTLS` block of Start
+		atStart := false
+		if start != nil {
+			ast.Inspect(start, func(n ast.Node) bool {
+				is, ok := n.(*ast.IfStmt)
+				if !ok || exprString(is.Cond) != "c.config.AutoMTLS" {
+					return true
+				}
+				if assigns(is.Body, "TLSConfig") && tlsLit(is.Body, "Certificates", "") {
+					atStart = true
+				}
+				return true
+			})
+		}
+		def("tls_host_cfg_at_start", "bool", coqBool(atStart), "client.go Start: under AutoMTLS the host's tls.Config (with its certificate) is installed before the plugin is launched")
+		def("tls_host_requires_client", "bool", coqBool(tlsLit(client, "ClientAuth", "tls.RequireAndVerifyClientCert")), "client.go: the host's tls.Config literal sets ClientAuth: RequireAndVerifyClientCert")
+		def("tls_host_pins_client_cas", "bool", coqBool(assigns(lsc, "ClientCAs") || tlsLit(lsc, "ClientCAs", "")), "client.go loadServerCert: pins the announced certificate as ClientCAs")
+		def("tls_host_pins_root_cas", "bool", coqBool(assigns(lsc, "RootCAs") || tlsLit(lsc, "RootCAs", "")), "client.go loadServerCert: pins the announced certificate as RootCAs")
+		def("tls_plugin_requires_client", "bool", coqBool(tlsLit(serve, "ClientAuth", "tls.RequireAndVerifyClientCert")), "server.go Serve: ClientAuth: RequireAndVerifyClientCert")
+		def("tls_plugin_pins_client_cas", "bool", coqBool(tlsLit(serve, "ClientCAs", "clientCertPool")), "server.go Serve: ClientCAs is the pool holding the host's certificate")
+		aas := findFunc(grpcb, "GRPCBroker", "AcceptAndServe")
+		brokerTLS := false
+		if aas != nil {
+			ast.Inspect(aas, func(n ast.Node) bool {
+				if ce, ok := n.(*ast.CallExpr); ok && exprString(ce.Fun) == "credentials.NewTLS" && len(ce.Args) == 1 && exprString(ce.Args[0]) == "b.tls" {
+					brokerTLS = true
+				}
+				return true
+			})
+		}
+		def("tls_broker_serves_with_tls", "bool", coqBool(brokerTLS), "grpc_broker.go AcceptAndServe: brokered servers get credentials.NewTLS(b.tls)")
+	}
+
 	// ---- GRPCClient.Close: is the Shutdown request bounded by context.WithTimeout(..., k*time.Second)?
 	if gcl := load(*repo, "grpc_client.go"); gcl != nil {
 		if cl := findFunc(gcl, "GRPCClient", "Close"); cl != nil {
